@@ -7,7 +7,9 @@ import TexcraftModel.Model.C01
 * `0` = `{`, `1` = `}`
 * `2 pre kind idx val`           assignment (`kind`: 0 count 1 dimen 2 skip 3 toks 4 catcode 5 mathcode 6 param;
                                  only `pre % 10` counts: the tens digit tells the harness how to write it)
-* `3 pre tk tn dk a b`           definition of target `(tk, tn)` (`tk`: 0 control sequence, 1 active char);
+* `3 pre tk tn dk a b`           definition of target `(tk, tn)` (`tk`: 0 control sequence, 1 active char; only
+                                 `pre % 10` = number of `\global`s counts: the other digits spell the whole prefix
+                                 run `\global`/`\long`/`\outer` for the harness);
                                  `dk`: 0 `\def` body a, 1 `\gdef` body a, 2 `\chardef` a, 3 `\mathchardef` a,
                                  4 `\countdef` a, 5 `\toksdef` a, 6 `\let`=char a, 7 `\let`=`\relax`,
                                  8 `\let`=font selector a, 9 `\let`=target `(a, b)`
@@ -60,7 +62,7 @@ def decOps : Nat → Cur → Option (List Op)
     let d ← defOf dk a b
     if pre < 0 then none
     let rest ← decOps fuel t
-    pure (Op.define pre.toNat tgt d :: rest)
+    pure (Op.define (pre.toNat % 10) tgt d :: rest)
   | fuel + 1, 4 :: pre :: f :: t => do
     if pre < 0 ∨ f < 0 then none
     let rest ← decOps fuel t
